@@ -509,3 +509,45 @@ impl Rig {
         out
     }
 }
+
+// ------------------------------------------------------------------------------------------------
+// initialisation-only runs (with or without reset pin), observed through the controller model
+
+pub struct InitRun {
+    pub cfg: Cfg,
+    pub bd: Bd,
+    pub ctl: Ctl,
+    pub out: Outcome,
+    pub state: Option<DState>,
+}
+
+pub fn init_run(cfg: &Cfg, faults: &[Fault]) -> InitRun {
+    let levels = Board::default_levels();
+    let bd = Board::new(levels);
+    {
+        let mut b = bd.borrow_mut();
+        b.faults = faults.to_vec();
+        b.budget = DEFAULT_BUDGET;
+    }
+    let (fw, fh) = cfg.fb();
+    let mut ctl = Ctl::new(fw, fh, cfg.tr.bus16());
+    ctl.keep_cmds = true;
+    if let ModelId::Builtin(i) = cfg.model {
+        ctl.vendor_pages = BUILTINS[i as usize].vendor_pages;
+    }
+    let mut state = None;
+    let out = guarded(|| match init_only(cfg, &bd).res {
+        Ok(s) => {
+            state = Some(s);
+            Ok(())
+        }
+        Err(e) => Err(e),
+    });
+    let mut dec = Decoder::new(levels);
+    {
+        let b = bd.borrow();
+        dec.sync(&b, cfg.tr, &mut ctl);
+    }
+    ctl.finish_cmd();
+    InitRun { cfg: *cfg, bd, ctl, out, state }
+}
